@@ -141,12 +141,14 @@ Fixpoint digits (fuel : nat) (p cl : Z) (stale : bool) : dres * bool :=
 (** HTTP_STATE_HEADERS, one header line.
     Result: ((outcome, content_length afterwards), stale); PrOk n = consume n bytes (n = 2: empty line) *)
 Definition CONTENT_LENGTH : list Z := [99; 111; 110; 116; 101; 110; 116; 45; 108; 101; 110; 103; 116; 104; 58].
+(* "Skip over the header": find the end of the line, consume it *)
+Definition hdr_finish (p cl' : Z) (stale : bool) : pr Z * Z * bool :=
+  match skip_line fuel_of p with
+  | PrOk p4 => if fill <=? p4 + 1 then (PrNeed, cl', stale) else (PrOk (p4 + 2), cl', stale)
+  | PrFault => (PrFault, cl', stale) | PrNeed => (PrNeed, cl', stale) | PrErr => (PrErr, cl', stale)
+  end.
 Definition parse_header (cl : Z) : pr Z * Z * bool :=
-  let finish (p cl' : Z) (stale : bool) :=
-    match skip_line fuel_of p with
-    | PrOk p4 => if fill <=? p4 + 1 then (PrNeed, cl', stale) else (PrOk (p4 + 2), cl', stale)
-    | PrFault => (PrFault, cl', stale) | PrNeed => (PrNeed, cl', stale) | PrErr => (PrErr, cl', stale)
-    end in
+  let finish := hdr_finish in
   if 15 <? fill then
     match match_ci 0 CONTENT_LENGTH with
     | PrOk true =>
